@@ -139,3 +139,40 @@ def site_programs(tier, seed):
     # comments
     progs.append(Prog('site/comments', [T('a', ' '), Com('// c1'), T('b', ' '), Com('/* c2 */', ' '), T('c', '\n'), Com('/* m\n l */'), T('d', '\n')], ['A']))
     return progs
+
+
+def table_programs(tier, seed):
+    """define/undef/redefine patterns for the returned table (C11) -- also through macro bodies"""
+    progs = []
+    progs.append(Prog('table/def-plain', [Def('M', 'x1'), Def('N'), T('t', '\n')], ['A', 'B']))
+    progs.append(Prog('table/def-args', [Def('F', 'p+q', [('p', None), ('q', '3')]), Def('G', 'r', [('r', '"s,t"')]), T('t', '\n')], ['A']))
+    progs.append(Prog('table/redefine', [Def('A', 'n1'), T('t', ' '), Def('A', 'n2 n3'), T('u', '\n')], ['A']))
+    progs.append(Prog('table/undef-caller', [Undef('A'), T('t', '\n')], ['A', 'B']))
+    progs.append(Prog('table/undef-undefined', [Undef('Q'), T('t', '\n')], ['A']))
+    progs.append(Prog('table/undefineall', [UndefAll(), T('t', '\n')], ['A', 'B']))
+    progs.append(Prog('table/undefineall-redefine', [Def('M', 'x'), UndefAll(), Def('N', 'y'), T('t', '\n')], ['A', 'B']))
+    progs.append(Prog('table/def-in-dead', [Cond(False, [('A', [Def('M', 'x')])], [Def('N', 'y')]), T('t', '\n')], ['A', 'B']))
+    progs.append(Prog('table/undef-in-dead', [Cond(True, [('A', [Undef('B')])], [UndefAll()]), T('t', '\n')], ['A', 'B']))
+    progs.append(Prog('table/predefined', [Def('__LINE__', '5'), Undef('__FILE__'), T('t', '\n')], ['A']))
+    # definitions / undefinitions reached through a macro body
+    progs.append(Prog('table/undef-via-macro', [Def('DROP', '`undef A', body_items=[Undef('A')]), Use('DROP', None, '\n'),
+                                                 Cond(False, [('A', [T('yA', '\n')])], [T('nA', '\n')])], ['A', 'B']))
+    progs.append(Prog('table/undefall-via-macro', [Def('DROP', '`undefineall', body_items=[UndefAll()]), Use('DROP', None, '\n'),
+                                                   Cond(False, [('B', [T('yB', '\n')])], [T('nB', '\n')])], ['A', 'B']))
+    progs.append(Prog('table/def-via-macro', [Def('MK', '`define B zz', body_items=[Def('B', 'zz')]), Use('MK', None, '\n'),
+                                               Cond(False, [('B', [T('yB', '\n')])], [T('nB', '\n')])], ['A', 'B']))
+    return progs
+
+
+def comment_programs(tier, seed):
+    """comments as sole separators / next to directives and usages (C18)"""
+    progs = []
+    progs.append(Prog('com/sole-sep', [T('a', ''), Com('/* c */', ''), T('b', '\n')], ['A']))
+    progs.append(Prog('com/line', [T('a', ' '), Com('// c1 c2'), T('b', '\n')], ['A']))
+    progs.append(Prog('com/after-ifdef', [Cond(False, [('A', [Com('// in a'), T('x', '\n')])], [Com('/* in e */'), T('y', '\n')]), Com('// tail'), T('z', '\n')], ['A']))
+    progs.append(Prog('com/next-to-use', [Com('/* l */', ''), Use('A', None, ''), Com('/* r */', ' '), T('z', '\n')], ['A']))
+    progs.append(Prog('com/in-define-body', [Def('M', 'm1 /* keep */ m2'), T('a', ' '), Use('M', None, ' '), Com('// t'), T('z', '\n')], ['A']))
+    progs.append(Prog('com/kept', [Kept('`timescale 1ns/1ps'), Com('// after kept'), T('q', '\n')], ['A']))
+    progs.append(Prog('com/undef', [Undef('A'), Com('// c'), T('q', ' '), Com('/* d */', ' '), UndefAll(), T('r', '\n')], ['A']))
+    progs.append(Prog('com/multi', [Com('/* a\n b */'), T('x', ' '), Com('/**/', ''), T('y', '\n'), Com('//'), T('z', '\n')], ['A']))
+    return progs
